@@ -1,6 +1,7 @@
 /- Protocol handlers for the executor / pending models (C09, C11, C12). -/
 import Driver.Util
 import Atlas.Exec
+import Atlas.SetVersion
 import Atlas.Base.Sha256
 open Lean Atlas
 
@@ -67,6 +68,16 @@ def handlePending (j : Json) : Json :=
   match r.out with
   | .ok fs => Json.mkObj ([("pending", jstrs (fs.map (·.name)))] ++ base)
   | .error e => (pendErrJson e).mergeObj (Json.mkObj base)
+
+/-- op "set.run": {files, revs, arg?} -> the revision table after `migrate set [arg]` -/
+def handleSetRun (j : Json) : Json :=
+  let files := (arr j "files").map parseFile
+  let revs := (arr j "revs").map parseRev
+  let arg := if has j "arg" then some (str j "arg") else none
+  match SetV.setRun files revs arg with
+  | .ok rs => Json.mkObj [("revs", Json.arr (rs.map revJson).toArray)]
+  | .error .notFound => Json.mkObj [("err", "not-found")]
+  | .error .needsArg => Json.mkObj [("err", "needs-arg")]
 
 /-- op "exec": run a list of attempts (each a fault list) of ExecuteN. -/
 def handleExec (j : Json) : Json := Id.run do
